@@ -156,6 +156,9 @@ def instances(prop: str, tier: str, rng: random.Random) -> list[dict]:
         cps += [rng.randrange(100000) for _ in range(400 if not big else 6000)]
         if big:
             cps += list(range(0, 100000, 7))
+        for cp in list(range(120, 170)) + list(range(250, 260)):          # every function name over the C1 range and the byte boundary
+            for name in (b"chr", b"Chr", b"ChrW", b"chrb"):
+                add("chr", b"", name + b"(" + str(cp).encode() + b")", opts={"dq": False, "cp": cp}, name=b2l(name), zeros=[])
         for cp in cps:
             name = rng.choice([b"chr", b"Chr", b"ChrW", b"chrb", b"CHRW"])
             zeros = rng.choice([b"", b"", b"0", b"00"])
@@ -199,6 +202,15 @@ def instances(prop: str, tier: str, rng: random.Random) -> list[dict]:
             for _j in range(k - 1):
                 blob += rng.choice(seps) + lit(body())
             add("concat", b"", blob)
+        # backslashes between single quotes (ordinary characters there), also as the last character of a literal
+        bs_bodies = [b"C:\\Users\\Public\\", b"\\", b"a\\b", b"\\\\srv\\share", b"exe.daolyap\\pmet\\:c", b"x\\", b"\\n", b"\\'"[:1] + b"t"]
+        for bb in bs_bodies:
+            add("concat", b"", lit(bb, dq=False) + b" + " + lit(b"upd.exe", dq=False))
+            add("concat", b"", lit(b"run ", dq=True) + b" & " + lit(bb, dq=False) + b" & " + lit(bb[::-1], dq=False))
+            for name in (b"reverse", b"reversed", b"StrReverse"):
+                add("reverse", b"", name + b"(" + lit(bb, dq=False) + b")", name=b2l(name))
+            add("replace.method", b"", lit(bb + b"zz" + bb, dq=False) + b".replace(" + lit(b"zz", dq=False) + b", " + lit(bb[:2], dq=False) + b")")
+            add("replace.ps", b"", lit(bb + b"zz", dq=False) + b" -replace " + lit(b"zz", dq=False) + b"," + lit(bb, dq=False))
         for special in (b"+", b"&", b"a+b", b" + ", b"&amp;", b"", b"x" * 50):
             add("concat", b"", lit(b"ab") + b" + " + lit(special) + b" & " + lit(b"cd"))
         for _ in range(200 if not big else 3000):
@@ -293,6 +305,9 @@ def run(prop: str, tier: str) -> int:
             inputs.append(b"$k = " + form + b"; " + call)
             if kx > 255:
                 inputs.append(b"$k = " + form + b"; " + call)          # the same out-of-range key met twice in a row
+        # tokens that are hexadecimal in mixed letter case (all of them base64 characters too), with same-case runs inside
+        for tok in (b"abcdef0123456789ABCDEF01", b"ABCD0123456789abcdef0123", b"deadbeefDEADBEEF0123456789ab", b"0123456789abcdefABCDEF0123456789", b"AbCdEf0123456789aBcDeF01"):
+            inputs += [tok, b"id=" + tok + b";", b"x " + tok + b" y " + tok.swapcase()]
         for kx in (0, 35, 255, 300):
             arr = b",".join(rng.choice([b"%d", b"0x%02x", b" %d"]) % rng.randrange(256) for _ in range(520))
             inputs.append(arr + b" | % { $_ -bxor " + str(kx).encode() + b" }")
